@@ -255,7 +255,13 @@ func addModuleSentinel(ctx context.Context, rootPath string) (err error) {
 		sentinelLocation = path.Join(fromBundleConfig(ctx).mainRoot, rootPath)
 	}
 
-	pathInBundle := path.Join(ModuleDir, sentinelLocation)
+	// files of a script without module are bundled under NoModuleDir, so the
+	// sentinels of modules nested in its tree have to go there too.
+	dir := ModuleDir
+	if !isImportModule(ctx) && fromBundleConfig(ctx).mainRoot == "" {
+		dir = NoModuleDir
+	}
+	pathInBundle := path.Join(dir, sentinelLocation)
 	if exists, err := ctxfs.FileExists(ctx, bundleFsKey, pathInBundle); err != nil {
 		return err
 	} else if exists {
